@@ -137,6 +137,7 @@ type State struct {
 	syncDepth int
 
 	tickers []int
+	panicWhere string
 	sigs    []sigEntry
 	replay map[string]uint64 // replay mode: concrete values for nondets
 	viols  []Violation
